@@ -61,11 +61,12 @@ def stimuli(tier, seed, ctx):
     nobj = len(make_objs())
     out = []
     for _ in range(700 if tier == 'quick' else 12000):
-        kind = rnd.choice(['s', 'i', 'c', 'a'])      # a = a sequential block with the async-init add-on
+        # a = a sequential block with the async-init add-on, f = an FSM
+        kind = rnd.choice(['s', 'i', 'c', 'a', 'f'])
         hist = [rnd.randint(1, nobj) for _ in range(rnd.randint(1, 12))]
         out.append({'kind': kind, 'on_output': _rand_events(rnd, rnd.randint(0, 3)),
                     'on_every': _rand_events(rnd, rnd.randint(0, 3)) if kind != 'c' else [],
-                    'hist': hist,
+                    'hist': hist, 'fdest': rnd.random() < 0.3,
                     # assignments made after the stop was requested (before the clean-up runs)
                     'late': [rnd.randint(1, nobj) for _ in range(rnd.randint(1, 3))]
                             if kind != 'c' and rnd.random() < 0.3 else []})
@@ -127,6 +128,38 @@ def execute(stim):
     class SndA(edzed.AddonAsyncInit, Snd):
         """like ValuePoll: set_output() is overridden by the add-on"""
 
+    class SndF(edzed.FSM):
+        """an FSM: every accepted transition assigns the output, changed or not"""
+        STATES = ['s']
+        EVENTS = [('set', None, 's')]
+
+        def enter_s(self):
+            self.sdata['v'] = edzed.fsm_event_data.get().get('value', objs[stim['hist'][0] - 1])
+
+        def calc_output(self):
+            return self.sdata['v']
+
+    class Aux(edzed.FSM):
+        """a second FSM that handles an event in the middle of DestF's transition"""
+        STATES = ['x']
+        EVENTS = [('ping', None, 'x')]
+
+    class DestF(edzed.FSM):
+        """an FSM destination: its entry action reads the event data (fsm_event_data) after the
+        exit events of the same transition were delivered to another FSM"""
+        STATES = ['a']
+        EVENTS = [('e1', None, 'a'), ('e2', None, 'a'), ('put', None, 'a')]
+
+        def _event(self, etype, data):
+            self._cur = etype
+            return super()._event(etype, data)
+
+        def enter_a(self):
+            if isinstance(self._cur, str):      # (not the initialising Goto)
+                data = edzed.fsm_event_data.get()
+                got.append({'dest': int(self.name[1:]), 'etype': self._cur,
+                            'data': {k: code(k, v) for k, v in data.items()}})
+
     def events(lst):
         evs, made = [], {}
         for e in lst:
@@ -146,11 +179,18 @@ def execute(stim):
 
     def build(circuit):
         for i in (1, 2, 3):
-            Dest(f'd{i}')
+            if stim.get('fdest') and i == 3:
+                Aux('aux')
+                DestF('d3', on_exit_a=edzed.Event('aux', 'ping'))
+            else:
+                Dest(f'd{i}')
         kind = stim['kind']
         first = objs[stim['hist'][0] - 1]
         if kind == 's':
             snd = Snd('snd', on_output=events(stim['on_output']), on_every_output=events(stim['on_every']))
+            target = snd
+        elif kind == 'f':
+            snd = SndF('snd', on_output=events(stim['on_output']), on_every_output=events(stim['on_every']))
             target = snd
         elif kind == 'a':
             snd = SndA('snd', init_timeout=0, on_output=events(stim['on_output']),
@@ -176,7 +216,7 @@ def execute(stim):
                     'late': 0})
         for v in stim['hist'][1:]:
             del got[:]
-            etype = 'set' if kind in ('s', 'a') else 'put'
+            etype = 'set' if kind in ('s', 'a', 'f') else 'put'
             try:
                 edzed.ExtEvent(target, etype).send(objs[v - 1])
             except edzed.EdzedError:
@@ -197,7 +237,7 @@ def execute(stim):
             for v in stim['late']:
                 del got[:]
                 try:
-                    snd.event('set' if kind in ('s', 'a') else 'put', value=objs[v - 1])
+                    snd.event('set' if kind in ('s', 'a', 'f') else 'put', value=objs[v - 1])
                 except edzed.EdzedError:
                     log.append({'ev': 'send_failed'})
                     return
